@@ -6,6 +6,25 @@ use quil_rs::Program;
 use std::str::FromStr;
 
 use crate::rng::Rng;
+use quil_rs::instruction::{QubitPlaceholder, TargetPlaceholder};
+
+/// Identity of a placeholder as the harness sees it: the value of the `Arc` pointer the newtype wraps, read
+/// as raw bytes — deliberately NOT through the type's own `==` / `Hash` / `Ord` / `Debug` (those are part of
+/// what C33/C34 check) and not through `as_inner().as_ptr()` (an empty base label has no buffer).
+/// `TargetPlaceholder(Arc<String>)` and `QubitPlaceholder(Arc<()>)` are single-field newtypes; the size
+/// assertions make a layout change a loud harness failure instead of a silent misreading.
+pub fn target_id(p: &TargetPlaceholder) -> usize {
+    assert_eq!(std::mem::size_of::<TargetPlaceholder>(), std::mem::size_of::<usize>());
+    // SAFETY: same size (asserted), plain read of the pointer bits, nothing is dereferenced or dropped
+    unsafe { std::mem::transmute_copy::<TargetPlaceholder, usize>(p) }
+}
+
+pub fn qubit_id(p: &QubitPlaceholder) -> usize {
+    assert_eq!(std::mem::size_of::<QubitPlaceholder>(), std::mem::size_of::<usize>());
+    // SAFETY: as above
+    unsafe { std::mem::transmute_copy::<QubitPlaceholder, usize>(p) }
+}
+
 
 /// Parse a Quil text into the instruction list of the resulting program (definitions first).
 pub fn parse_all(text: &str) -> Vec<Instruction> {
